@@ -318,12 +318,20 @@ def _main(mod, pid, tier, seed, args, t0):
     if getattr(mod, "TRANSLATE", False):
         from harness import translate
 
-        T = translate.regenerate()
+        # a source shape the translator does not know (any exception inside it) is a TRANSLATOR FAILURE, handled like a broken proof
+        # (§2.5): the search for a failing input still runs; it is never an internal error of the check
+        try:
+            T = translate.regenerate()
+        except Exception as e:  # noqa: BLE001
+            T = [f"translate: the source has a shape the arithmetic translator cannot read ({type(e).__name__}: {str(e)[:200]})"]
     if getattr(mod, "TRANSLATE_ALGO", None):
         from harness import translate_algo
 
         # imperative translator (DESIGN.md §2.2b): only the generated modules this property is stated about
-        T = T + translate_algo.regenerate(list(mod.TRANSLATE_ALGO))
+        try:
+            T = T + translate_algo.regenerate(list(mod.TRANSLATE_ALGO))
+        except Exception as e:  # noqa: BLE001
+            T = T + [f"translate_algo: the source has a shape the imperative translator cannot read ({type(e).__name__}: {str(e)[:200]})"]
     # 2. build property theorems (+ driver)
     if not args.no_build:
         ok, out = lake_build(list(mod.LEAN_MODS))
